@@ -8,7 +8,7 @@ for pid, v in verd.items():
         continue
     a = json.load(open(f'{d}/meta_agent.json')) if os.path.exists(f'{d}/meta_agent.json') else {}
     confirm = open(f'{d}/confirm.txt').read().strip() if os.path.exists(f'{d}/confirm.txt') else 'pending'
-    m = {"property": pid,
+    m = {"property": pid[:3],
          "origin": "written by an independent sub-agent that was given only the property text and a scratch worktree of /repo (nothing from /verif)",
          "summary": a.get('summary', ''),
          "needs_to_manifest": a.get('needs_to_manifest', ''),
